@@ -10,24 +10,19 @@ From SV Require Import lib.Bytes model.Timeouts proof.Timeouts_lemmas gen.Timeou
 Import ListNotations.
 Open Scope N_scope.
 
-(* ---- known unguarded sites (method, callee).  This list mirrors the `known` entries
-   c14:unguarded:<method>:<callee> of /verif/known_findings.json; it is the ONLY way a
-   site is excused, so a new unguarded site breaks C14_table_all_guarded. *)
-Definition known_unguarded : list (string * string) :=
-  [ (* server: the TLS handshake (tls_immediately and STARTTLS) runs outside any scope *)
-    ("_encrypt_session", "encrypt_socket_server");
-    (* server: writes are never inside a scope: a peer that stops reading blocks sendall *)
-    ("handle", "flush_send");
-    ("handle", "send");
-    ("_get_message_data", "flush_send");
-    ("_command_STARTTLS", "send");
-    ("_command_DATA", "send") ]%string.
+(* ---- `known_unguarded` (method, callee) is generated beside the table from the entries
+   c14:unguarded:<method>:<callee> with status `known` of /verif/known_findings.json and
+   printed below; it is the ONLY way a site is excused, so a new unguarded site breaks
+   C14_table_all_guarded, and an entry flipped to `fixed` tightens it by itself.  With the
+   server-side repairs (TLS handshake and every reply write bounded by command_timeout)
+   nothing remains: the list is [] and the theorem is the statement without exceptions. *)
+Print known_unguarded.
 
 (* Every call that waits for the peer (connect, command/reply exchange, read, write, TLS
    handshake, subprocess, HTTP request) in SmtpRelayClient, LmtpRelayClient, Server,
    PipeRelay/MaildropRelay/DovecotLdaRelay and HttpRelayClient lies, on every call path,
    inside `with Timeout(<connect|command|data|single configured timeout>)`, except the
-   listed sites. *)
+   sites of known_unguarded (none when that list is []). *)
 Theorem C14_table_all_guarded : all_guarded known_unguarded timeout_table = true.
 Proof. vm_compute. reflexivity. Qed.
 Print Assumptions C14_table_all_guarded.
